@@ -357,20 +357,26 @@ def run(ctx):
     seqs = [(f"q{k}", b["ops"], b["last"]) for k, b in enumerate(beh)]
     ctx.extra["operation_sequences_from_tlc"] = len(seqs)
     text = base_text(0)
+    if len(seqs) > 14000:
+        # (thorough tier: every sequence of <= 2 operations, a seeded slice of the longer ones - every step now costs five parses)
+        short = [x for x in seqs if len(x[1]) <= 2]
+        longer = [x for x in seqs if len(x[1]) > 2]
+        seqs = short + r.sample(longer, 12000)
+        ctx.count("behaviours_sampled_not_all")
     _judge(ctx, seqs, text, "ChartObject.tla operation sequences", 0)
     # the same sequences on a chart whose body lines are not in tick order ("forall charts")
     seqs2 = [(f"d{k}", ops, None) for k, (sid, ops, last) in enumerate(seqs)]
-    _judge(ctx, seqs2 if not ctx.quick else seqs2[::2], base_text(2), "ChartObject.tla operation sequences, disordered chart", 2)
+    _judge(ctx, seqs2[::2] if len(seqs2) < 6000 else seqs2[:: max(1, len(seqs2) // 4000)], base_text(2), "ChartObject.tla operation sequences, disordered chart", 2)
     # ... and on a chart with ticks of 8 to 12 digits next to ordinary ones (first in the process's life for a slice of them:
     # each runs in this process, whose class-level state - if any - the earlier sequences have shaped)
     seqs3 = [(f"f{k}", ops, None) for k, (sid, ops, last) in enumerate(seqs)]
-    _judge(ctx, seqs3[:: ctx.pick(6, 1)], base_text(3), "ChartObject.tla operation sequences, chart with far ticks", 3)
+    _judge(ctx, seqs3[:: max(6, len(seqs3) // 3000)], base_text(3), "ChartObject.tla operation sequences, chart with far ticks", 3)
     # longer seeded sequences over the same alphabet, on a second chart
     alphabet = sorted({json.dumps(b["ops"][0]) for b in beh})
     alphabet = [json.loads(a) for a in alphabet]
     ctx.extra["operation_alphabet"] = len(alphabet)
     seqs = []
-    for k in range(ctx.pick(600, 6000)):
+    for k in range(ctx.pick(600, 3000)):
         n = r.choice([3, 4, 5, 6])
         seqs.append((f"s{k}", [r.choice(alphabet) for _ in range(n)], None))
     _judge(ctx, seqs, text, "seeded longer sequences", 0)
